@@ -47,6 +47,10 @@ func v1KeySchema(op J) ([]*dynamodb.KeySchemaElement, []*dynamodb.AttributeDefin
 			defs = append(defs, &dynamodb.AttributeDefinition{AttributeName: aws.String(str(r, "name")), AttributeType: aws.String(str(r, "type"))})
 		}
 	}
+	if b, ok := op["range_first"].(bool); ok && b && len(ks) == 2 {
+		// the same schema, listed RANGE element first
+		ks[0], ks[1] = ks[1], ks[0]
+	}
 	return ks, defs
 }
 
@@ -168,6 +172,9 @@ func (s *session) runV1(name string, op J) J {
 		if b, ok := op["return_old"].(bool); ok && b {
 			pin.ReturnValues = aws.String("ALL_OLD")
 		}
+		if has(op, "rv") {
+			pin.ReturnValues = aws.String(str(op, "rv")) // any other value: nothing is returned
+		}
 		o, err := cl.PutItem(pin)
 		r := res(err)
 		if err == nil && o != nil && o.Attributes != nil {
@@ -194,6 +201,9 @@ func (s *session) runV1(name string, op J) J {
 		in := &dynamodb.DeleteItemInput{TableName: table, Key: itemToV1(obj(op, "key")), ConditionExpression: pstr(op, "cond"), ExpressionAttributeNames: v1Names(op), ExpressionAttributeValues: itemToV1(obj(op, "values"))}
 		if b, ok := op["return_old"].(bool); ok && b {
 			in.ReturnValues = aws.String("ALL_OLD")
+		}
+		if has(op, "rv") {
+			in.ReturnValues = aws.String(str(op, "rv")) // any other value: nothing is returned
 		}
 		o, err := cl.DeleteItem(in)
 		r := res(err)
